@@ -889,6 +889,13 @@ class Merger:
             if target_node is rhs:
                 # _get_merge_target_nodes already inserted RHS (novel mergeat)
                 merge_performed = True
+            elif (isinstance(rhs, (CommentedMap, CommentedSeq, CommentedSet))
+                  and not isinstance(
+                      target_node, (CommentedMap, CommentedSeq, CommentedSet))
+            ):
+                raise MergeException(
+                    "Impossible to merge a Hash, Array, or Set into a Scalar"
+                    " destination.", insert_at)
             elif isinstance(rhs, CommentedMap):
                 merge_performed = self._insert_dict(
                     insert_at, target_node, rhs)
